@@ -30,22 +30,21 @@ Definition is_real (s : sigent) : bool := match s with Sig _ _ => true | _ => fa
 Definition is_nojws (s : sigent) : bool := match s with NoJws => true | _ => false end.
 Definition is_nilsig (s : sigent) : bool := match s with NilSig => true | _ => false end.
 
-(* outcome of extracting the payload: the header, a (non-panicking) failure, or a nil dereference *)
-Inductive payload := PHeader (h : header) | PFail | PPanic.
+(* outcome of extracting the payload: the header, or a failure *)
+Inductive payload := PHeader (h : header) | PFail.
 
-(* Signature.VerifyPayload(key, new(head.Header)).
-   shipped: s.jws.Verify on a nil jws (or nil s) panics.
-   fix10:   Verify returns ErrKeyMismatch when s or s.jws is nil. *)
-Definition verify_payload (fix10 : bool) (k : keyid) (s : sigent) : payload :=
+(* Signature.VerifyPayload(key, new(head.Header)): ErrKeyMismatch when the JWS was not made with
+   the key - or when s or s.jws is nil (nil guard of commit 3e1b1c1; before it: nil dereference) *)
+Definition verify_payload (k : keyid) (s : sigent) : payload :=
   match s with
   | Sig k' h => if k' =? k then PHeader h else PFail
-  | _ => if fix10 then PFail else PPanic
+  | _ => PFail
   end.
 
-(* Signature.UnsafePayload(new(head.Header)): no key involved.
-   fix10: Unsafe returns nil data for a missing JWS, json.Unmarshal fails -> "invalid payload". *)
-Definition unsafe_payload (fix10 : bool) (s : sigent) : payload :=
+(* Signature.UnsafePayload(new(head.Header)): no key involved.  Unsafe returns nil data for a
+   missing JWS, json.Unmarshal fails on it -> "invalid signature payload" *)
+Definition unsafe_payload (s : sigent) : payload :=
   match s with
   | Sig _ h => PHeader h
-  | _ => if fix10 then PFail else PPanic
+  | _ => PFail
   end.
